@@ -64,8 +64,8 @@ FACTS = [
     ("acquireBodyWithheld", ["proxy_agent/src/key_keeper/key.rs"],
      r"read_response_body\(response\)\s*\.await\s*\.map_err\(\|e\|\s*match e\s*\{\s*Error::Hyper\(HyperErrorType::Deserialize\(_\)\)\s*=>", "count", 1, ["C12"]),
     ("keyReadResponseBodySites", ["proxy_agent/src/key_keeper/key.rs"], r"read_response_body\s*\(", "count", 1, ["C12"]),
-    ("keeperRestSaturating", ["proxy_agent/src/key_keeper.rs"], r"sleep\.as_millis\(\)\s*\.saturating_sub\(\s*slept_time_in_millisec\s*\)", "count", 1, ["C13"]),
-    ("keeperRestPlainSub", ["proxy_agent/src/key_keeper.rs"], r"sleep\.as_millis\(\)\s*-\s*slept_time_in_millisec", "count", 0, ["C13"]),
+    ("keeperRestSaturating", ["proxy_agent/src/key_keeper.rs"], r"let\s+continue_sleep\s*=\s*\w+\.as_millis\(\)\s*\.saturating_sub\(\s*\w+\s*\)", "count", 1, ["C13"]),
+    ("keeperRestPlainSub", ["proxy_agent/src/key_keeper.rs"], r"let\s+continue_sleep\s*=\s*\w+\.as_millis\(\)\s*-\s*\w+", "count", 0, ["C13"]),
     ("keyDirMode", "proxy_agent/src/acl/linux_acl.rs", r"fs::Permissions::from_mode\(\s*0o([0-7]+)\s*\)", "oct", 0o700, ["C12"]),
     ("keyStructDerivesDebug", ["proxy_agent/src/key_keeper/key.rs"],
      r"#\[derive\([^\]]*Debug[^\]]*\)\]\s*(?:#\[[^\]]*\]\s*)*pub struct Key\s*\{", "count", 0, ["C12"]),
